@@ -232,6 +232,33 @@ def unionOpr (cs : List GCh) : Bool :=
   | .colon :: b => isSep false a && !cmtAfter false a && isSep false b && !cmtAfter false b
   | _ => false
 
+/-- the strings of a padding hold no comment start (comments are `CommentNode`s) -/
+def cleanPad (p : Pad) : Bool :=
+  p.all fun
+    | .str cs => !cs.contains .cmt
+    | .cmt _ => true
+
+/-- what the operator padding of a node that exists must look like -/
+def oprOK (o : BOp) (cs : List GCh) : Bool :=
+  match o with
+  | .inter => isSep false cs && !cmtAfter false cs
+  | .union => unionOpr cs
+
+/-- the operator padding of an intersection after `_update_node`: separators and comments, nothing hidden that
+    `_update_node` would take for a ":" -/
+def interLike (p : Pad) : Bool :=
+  isSep false p.format && !cmtAfter false p.format && !(strChars p).contains .colon
+
+/-- the operator padding after `_update_node`, by operator -/
+def oprOKp (o : BOp) (p : Pad) : Bool :=
+  match o with
+  | .inter => interLike p
+  | .union => unionOpr p.format
+
+/-- the operator padding before `_update_node`: that of an intersection or that of a union, *whatever the node's
+    operator is* (`hs.operator = …` changes the operator and leaves the text to `_update_node`) -/
+def oprPre (p : Pad) : Bool := interLike p || unionOpr p.format
+
 def isUnion : HS → Bool
   | .bin .union .. => true
   | _ => false
@@ -241,7 +268,8 @@ def isUnion : HS → Bool
     symbol; links carry parentheses where MCNP's precedence needs them; a left operand does not end inside a
     comment; two numerals are never adjacent (an intersection has a non-empty padding, or a parenthesised operand, or
     its left text does not end in a digit).  `gen false` (`linked`) is the same without the last clause: the
-    state after `_ensure_has_nodes`, before `_update_node` has put a blank where one is needed. -/
+    state after `_ensure_has_nodes`, before `_update_node` has put a blank where one is needed or rewritten the
+    operator symbol after `hs.operator = …`. -/
 def gen (b : Bool) : HS → Bool
   | .unit d s false (some v) => tokVal v.tok == some (!s, d) && isSep false (optFmt v.pad)
   | .unit _ _ _ _ => false
@@ -257,13 +285,13 @@ def gen (b : Bool) : HS → Bool
       gen b l && gen b r && orderOK g [.left, .operator, .right] &&
       chainOK g.lchain l.fmt && chainOK g.rchain r.fmt &&
       !cmtAfter false (wrapFmt g.lchain l.fmt) &&
+      (cleanPad g.opr && cond b (oprOKp o g.opr) (oprPre g.opr)) &&
       (match o with
         | .inter =>
-            isSep false g.opr.format && !cmtAfter false g.opr.format &&
             (!b || !g.opr.format.isEmpty || headParens g.lchain || headParens g.rchain ||
               !lastDigit (wrapFmt g.lchain l.fmt)) &&
             (!isUnion l || headParens g.lchain) && (!isUnion r || headParens g.rchain)
-        | .union => unionOpr g.opr.format) &&
+        | .union => true) &&
       isSep false (optFmt g.ep)
   | .bin _ _ _ none => false
 
@@ -280,12 +308,6 @@ def chainPads : List Wrap → Bool
         | .bare => true
         | .parens s e => isSep false s && !cmtAfter false s && isSep false e
         | .bad => false) && chainPads ws
-
-/-- what the operator padding of a node that exists must look like -/
-def oprOK (o : BOp) (cs : List GCh) : Bool :=
-  match o with
-  | .inter => isSep false cs && !cmtAfter false cs
-  | .union => unionOpr cs
 
 /-- **HS.WF**: well-formedness of a HalfSpace tree *before* `_update_values`: a cell leaf occurs only directly
     under a complement; a HalfSpace may or may not have its syntax node yet; where a node exists (it was read, or
@@ -316,6 +338,6 @@ def wf : HS → Bool
       (match gn with
         | none => true
         | some g => orderOK g [.left, .operator, .right] && chainPads g.lchain && chainPads g.rchain &&
-            oprOK o g.opr.format && isSep false (optFmt g.ep))
+            (cleanPad g.opr && oprPre g.opr) && isSep false (optFmt g.ep))
 
 end MontePyVerif.C02
